@@ -471,3 +471,32 @@ func init() {
 		}
 	})
 }
+
+func init() {
+	// F15 (genuine defect, fixed in /repo 0443d55): in a fragment with a foreign context element the stack of open
+	// elements can be the root html element alone; parseForeignContent popped any element matching an end tag,
+	// the root included, and the next token dereferenced the nil current node.
+	ExtraClause("C41", "Also: parseForeignContent never truncates the stack of open elements to length 0 (the root html element is never popped).")
+	RegisterExtra("C41", func(c *Ctx) {
+		const name = "html.parseForeignContent"
+		fn := c.MustFn(name)
+		if fn == nil {
+			return
+		}
+		n := 0
+		for _, in := range Stores("html.parser.oe").F(c.P, fn) {
+			sl, ok := in.(*ssa.Store).Val.(*ssa.Slice)
+			if !ok || sl.High == nil {
+				continue
+			}
+			n++
+			h := Linearize(sl.High)
+			need := h.Sub(h).Sub(h).AddK(1) // 1 - h <= 0
+			c.Check(FactsImply(in, LEZero(need)), "stack-never-emptied", name+": `p.oe = p.oe[:h]` only with h >= 1", in.Pos(), "",
+				"the stack is cut to "+h.String()+" elements with no dominating test that this is at least 1: an end tag can pop the root html element")
+		}
+		if n == 0 {
+			c.Undecided("stack-never-emptied", name, "no truncation of parser.oe found")
+		}
+	})
+}
